@@ -125,3 +125,106 @@ M("C03-atan-drop-minus", "C03", "R3.3", (AL, "    w = ctx.atanh(ctx.complex(-z.i
 M("C03-square-real-odd", "C03", "R3.2", (AL, "    return ctx(x * x)", "    return ctx(x * abs(x))"))
 N("C03-neutral-commute", "C03", (AL, "    real = ctx.select(signed_x < 0, -w.imag, w.imag)\n    imag = ctx.atan2(signed_y, w.real)", "    real = ctx.select(0 > signed_x, -w.imag, w.imag)\n    imag = ctx.atan2(signed_y, w.real)"))
 N("C03-neutral-select-flip", "C03", (AL, "    imag = ctx.select(signed_y < 0, w.imag, -w.imag)", "    imag = ctx.select(signed_y >= 0, -w.imag, w.imag)"))
+
+# ----------------------------------------------------------------------------- C05
+M("C05-subtract-swapped", "C05", "R5.3", ("targets/python.py", 'subtract="({0}) - ({1})",', 'subtract="({1}) - ({0})",'))
+M("C05-numpy-less-equal", "C05", "R5.3", ("targets/numpy.py", 'le="numpy.less_equal({0}, {1})",', 'le="numpy.less({0}, {1})",'))
+M("C05-cpp-select-branches", "C05", "R5.3", ("targets/cpp.py", 'select="(({0}) ? ({1}) : ({2}))",', 'select="(({0}) ? ({2}) : ({1}))",'))
+M("C05-cpp-atan2-order", "C05", "R5.3", ("targets/cpp.py", 'atan2="std::atan2({0}, {1})",', 'atan2="std::atan2({1}, {0})",'))
+M("C05-numpy-where-order", "C05", "R5.3", ("targets/numpy.py", 'select="numpy.where({0}, {1}, {2})",', 'select="numpy.where({0}, {2}, {1})",'))
+M("C05-percent-escape", "C05", "R5.2", ("targets/python.py", 'remainder="({0}) % ({1})",', 'remainder="({0}) %% ({1})",'))
+M("C05-missing-operand", "C05", "R5.1", ("targets/python.py", 'maximum="max({0}, {1})",', 'maximum="max({0}, {0})",'))
+M("C05-unbound-floot", "C05", "R5.4", ("targets/cpp.py", 'floor="std::floor({0})",', 'floor="std::floot({0})",'))
+M("C05-numpy-unbound", "C05", "R5.4", ("targets/numpy.py", 'log1p="numpy.log1p({0})",', 'log1p="numpy.log1pp({0})",'))
+M("C05-const-smallest-is-subnormal", "C05", "R5.5", ("targets/numpy.py", 'smallest="numpy.finfo({type}).smallest_normal",', 'smallest="numpy.finfo({type}).smallest_subnormal",'))
+M("C05-const-cpp-largest", "C05", "R5.5", ("targets/cpp.py", 'largest="std::numeric_limits<{type}>::max()",', 'largest="std::numeric_limits<{type}>::min()",'))
+M("C05-const-missing-eps", "C05", "R5.5", ("targets/python.py", '    eps="sys.float_info.epsilon",\n', ""))
+M("C05-type-width", "C05", "R5.6", ("targets/cpp.py", '        float32="float",\n        float64="double",', '        float32="double",\n        float64="double",'))
+M("C05-upcast-table", "C05", "R5.6", ("targets/numpy.py", '        "numpy.float32": "numpy.float64",\n        "numpy.float64": "numpy.float128",', '        "numpy.float32": "numpy.float32",\n        "numpy.float64": "numpy.float128",'))
+M("C05-numpy-const-uncast", "C05", "R5.7", ("targets/numpy.py", '        return f"{typ}({s})"\n\n    def make_argument', '        if s.startswith("numpy."):\n            return s\n        return f"{typ}({s})"\n\n    def make_argument'))
+M("C05-defined-not-recorded", "C05", "R5.8", ("targets/base.py", "            self.assignments.append(self.make_assignment(self.get_type(expr), expr.ref, result))\n            self.defined_refs.add(expr.ref)\n", "            self.assignments.append(self.make_assignment(self.get_type(expr), expr.ref, result))\n"))
+M("C05-early-return-unguarded", "C05", "R5.8", ("targets/base.py", "        if expr.ref in self.defined_refs:\n            assert self.need_ref.get(expr.ref), expr.ref\n            return expr.ref\n", "        if expr.ref in self.need_ref and self.need_ref[expr.ref] and expr.kind == \"symbol\":\n            return expr.ref\n"))
+M("C05-register-unchecked-candidate", "C05", "R5.9", ("context.py", "            other = self._ref_values.get(ref_name_)\n            while other is not None:\n                if other is expr:", "            while other is not None:\n                if other is expr:"))
+M("C05-operands-sliced", "C05", "R5.10", ("targets/base.py", "result = tmpl.format(*[self.tostring(operand) for operand in expr.operands], **m)", "result = tmpl.format(*[self.tostring(operand) for operand in expr.operands[::-1]], **m)"))
+N("C05-neutral-alias", "C05", ("targets/numpy.py", 'asin="numpy.arcsin({0})",', 'asin="numpy.asin({0})",'))
+N("C05-neutral-mirror", "C05", ("targets/python.py", 'gt="({0}) > ({1})",', 'gt="({1}) < ({0})",'))
+N("C05-neutral-fabs", "C05", ("targets/cpp.py", 'absolute="std::abs({0})",', 'absolute="std::fabs({0})",'))
+N("C05-neutral-extra-row", "C05", ("targets/cpp.py", '    is_finite="std::isfinite({0})",', '    is_finite="std::isfinite({0})",\n    exp2="std::exp2({0})",'))
+
+# ----------------------------------------------------------------------------- C06
+M("C06-xla-sub-order", "C06", "R6.1", ("targets/xla_client.py", 'subtract="Sub({0}, {1})",', 'subtract="Sub({1}, {0})",'))
+M("C06-xla-wrong-op", "C06", "R6.1", ("targets/xla_client.py", 'le="Le({0}, {1})",', 'le="Lt({0}, {1})",'))
+M("C06-xla-floot", "C06", "R6.1", ("targets/xla_client.py", 'floor="Floor({0})",', 'floor="Floot({0})",'))
+M("C06-hlo-wrong-op", "C06", "R6.1", ("targets/stablehlo.py", 'maximum="StableHLO_MaxOp",', 'maximum="StableHLO_MinOp",'))
+M("C06-hlo-unknown-op", "C06", "R6.1", ("targets/stablehlo.py", 'cos="StableHLO_CosineOp",', 'cos="StableHLO_CosOp",'))
+M("C06-hlo-operands-reversed", "C06", "R6.2", ("targets/stablehlo.py", "            for operand in expr.operands:\n                op_lines = self.tostring(operand, tab=tab + \"  \").splitlines()", "            for operand in reversed(expr.operands):\n                op_lines = self.tostring(operand, tab=tab + \"  \").splitlines()"))
+M("C06-hlo-compare-set", "C06", "R6.2", ("targets/stablehlo.py", '        elif expr.kind in {"lt", "le", "gt", "ge", "eq", "ne"}:', '        elif expr.kind in {"lt", "le", "gt", "ge", "eq"}:'))
+M("C06-hlo-direction-table", "C06", "R6.2", ("targets/stablehlo.py", "            lines.append(f'{tab}  StableHLO_ComparisonDirectionValue<\"{expr.kind.upper()}\">,')", "            direction = dict(lt='LT', le='LT', gt='GT', ge='GE', eq='EQ', ne='NE')[expr.kind]\n            lines.append(f'{tab}  StableHLO_ComparisonDirectionValue<\"{direction}\">,')"))
+M("C06-hlo-bind-twice", "C06", "R6.3", ("targets/stablehlo.py", "        if expr.ref in self.defined_refs:\n            assert self.need_ref.get(expr.ref), expr.ref\n            return f\"{tab}${expr.ref}\"\n\n        self.defined_refs.add(expr.ref)\n", "        if expr.ref in self.defined_refs:\n            assert self.need_ref.get(expr.ref), expr.ref\n            return f\"{tab}${expr.ref}\"\n\n"))
+M("C06-hlo-const-name", "C06", "R6.4", ("targets/stablehlo.py", '    smallest="StableHLO_ConstantLikeSmallestNormalizedValue",', '    smallest="StableHLO_ConstantLikeMaxFiniteValue",'))
+M("C06-xla-like-bare", "C06", "R6.4", ("targets/xla_client.py", 'return f"ScalarLike({self.tostring(like)}, {value})"', 'return f"ScalarLike({like.ref}, {value})"'))
+N("C06-neutral-comment", "C06", ("targets/stablehlo.py", "        self.defined_refs.add(expr.ref)\n\n        ref = ", "        self.defined_refs.add(expr.ref)  # bind\n\n        ref = "))
+
+# ----------------------------------------------------------------------------- C08
+M("C08-typemax-complex", "C08", "R8.1", ("typesystem.py", "            elif kind == \"complex\" and t.kind == \"float\":\n                # a complex type must hold the float type as its component type\n                bits_lst.append(2 * t.bits)", "            elif kind == \"complex\" and t.kind == \"float\":\n                bits_lst.append(t.bits)"))
+M("C08-abs-complex-type", "C08", "R8.1", ("expr.py", '        elif self.kind in {"absolute", "real", "imag"}:\n            t = self.operands[0].get_type()\n            return t.complex_part if t.is_complex else t', '        elif self.kind in {"real", "imag"}:\n            t = self.operands[0].get_type()\n            return t.complex_part if t.is_complex else t\n        elif self.kind == "absolute":\n            return self.operands[0].get_type()'))
+M("C08-compare-not-bool", "C08", "R8.1", ("expr.py", '        elif self.kind in {"lt", "le", "gt", "ge", "eq", "ne", "logical_and", "logical_or", "logical_xor", "is_finite"}:\n            return Type.fromobject(self.context, "boolean")', '        elif self.kind in {"lt", "le", "gt", "ge", "logical_and", "logical_or", "logical_xor", "is_finite"}:\n            return Type.fromobject(self.context, "boolean")\n        elif self.kind in {"eq", "ne"}:\n            return self.operands[0].get_type()'))
+M("C08-builtin-max", "C08", "R8.1", ("targets/numpy.py", 'maximum="numpy.maximum({0}, {1})",', 'maximum="numpy.fmax({0}, {1})" if False else "({0}) if ({0}) > ({1}) else ({1})",'))
+M("C08-complex-part-width", "C08", "R8.1", ("typesystem.py", "        bits = self.bits // 2 if self.bits is not None else None\n        return type(self)(self.context, \"float\", bits)", "        bits = self.bits if self.bits is not None else None\n        return type(self)(self.context, \"float\", bits)"))
+M("C08-assert-wrong-expr", "C08", "R8.3", ("targets/base.py", "stmt = self.check_dtype(expr.ref, self.get_type(expr))", "stmt = self.check_dtype(expr.ref, self.get_type(expr.operands[0]))"))
+M("C08-seed-finfo", "C08", "R8.4", ("targets/numpy.py", '        return f"{typ}({s})"\n\n    def make_argument', '        if s.startswith((f"{typ}(", f"numpy.finfo({typ}).")):\n            return s\n        return f"{typ}({s})"\n\n    def make_argument'))
+N("C08-neutral-rename", "C08", ("targets/numpy.py", "        typ = self.get_type(like)\n        s = str(value)", "        typ = self.get_type(like)  # static type of the constant\n        s = str(value)"))
+
+# ----------------------------------------------------------------------------- C11
+M("C11-precedence", "C11", "R11.1", (FPA, "fp64 = ctx.constant((1 << (53 - 1)) + 1, largest)", "fp64 = ctx.constant(1 << (53 - 1) + 1, largest)"))
+M("C11-q-fp32", "C11", "R11.1", (FPA, "    fp32 = ctx.constant(1 << (24 - 1), largest)\n", "    fp32 = ctx.constant(1 << (23 - 1), largest)\n"))
+M("C11-params-p", "C11", "R11.1", (FPA, "    Q = 2 ** (p - 1)\n    P = 2 ** (p - 1) + 1\n", "    Q = 2 ** (p - 1)\n    P = 2 ** p + 1\n"))
+M("C11-kernel-invert", "C11", "R11.1", (FPA, "    D = L - R\n    if invert:\n        return D != x\n    return D == x", "    D = L - R\n    if invert:\n        return D == x\n    return D == x"))
+M("C11-next-constant", "C11", "R11.2", (FPA, "    c = ctx.constant(1 - 1 / (1 << p))", "    c = ctx.constant(1 - 1 / (1 << (p - 1)))"))
+M("C11-next-direction", "C11", "R11.2", (FPA, "return ctx.select(x > 0, x / c, x * c) if up else ctx.select(x < 0, x / c, x * c)", "return ctx.select(x > 0, x * c, x / c) if up else ctx.select(x < 0, x / c, x * c)"))
+M("C11-seed-guard", "C11", "R11.3", (FPA, "        overflow = abs(xh * yh) > largest", "        overflow = xh * yh > largest"))
+
+# ----------------------------------------------------------------------------- C13
+M("C13-exp-width", "C13", "R13.1", ("utils.py", "        numpy.float32: (8, 23, numpy.uint32),", "        numpy.float32: (8, 24, numpy.uint32),"))
+M("C13-uint-pairing", "C13", "R13.1", ("utils.py", "itype = {numpy.float16: numpy.uint16, numpy.float32: numpy.uint32, numpy.float64: numpy.uint64}[dtype]\n        i = f.view(itype)", "itype = {numpy.float16: numpy.uint16, numpy.float32: numpy.uint64, numpy.float64: numpy.uint64}[dtype]\n        i = f.view(itype)"))
+M("C13-float-prec", "C13", "R13.1", ("utils.py", "float_prec = dict(float16=11, float32=24, float64=53, float128=113, longdouble=64)", "float_prec = dict(float16=11, float32=23, float64=53, float128=113, longdouble=64)"))
+M("C13-subexp", "C13", "R13.1", ("utils.py", "float_subexp = dict(float16=-23, float32=-148, float64=-1073,", "float_subexp = dict(float16=-23, float32=-148, float64=-1074,"))
+M("C13-seed-weak-scalar", "C13", "R13.2", ("utils.py", "        q = q - type(q)(f)", "        q = q - f"))
+N("C13-neutral-order", "C13", ("utils.py", "        uint = {numpy.float64: numpy.uint64, numpy.float32: numpy.uint32, numpy.float16: numpy.uint16}[x.dtype.type]", "        uint = {numpy.float16: numpy.uint16, numpy.float32: numpy.uint32, numpy.float64: numpy.uint64}[x.dtype.type]"))
+
+# ----------------------------------------------------------------------------- C15
+M("C15-sentinel-inverted", "C15", "R15.1", ("utils.py", "self.flush_subnormals = flush_subnormals if flush_subnormals is not UNSPECIFIED else default_flush_subnormals", "self.flush_subnormals = flush_subnormals if flush_subnormals is UNSPECIFIED else default_flush_subnormals"))
+M("C15-diffulp-discards", "C15", "R15.1", ("utils.py", "            flush_subnormals = flush_subnormals if flush_subnormals is not UNSPECIFIED else default_flush_subnormals\n            if flush_subnormals:", "            flush_subnormals = default_flush_subnormals if flush_subnormals is not UNSPECIFIED else default_flush_subnormals\n            if flush_subnormals:"))
+M("C15-truth-before-resolve", "C15", "R15.2", ("utils.py", "            flush_subnormals = flush_subnormals if flush_subnormals is not UNSPECIFIED else default_flush_subnormals\n            if flush_subnormals:", "            if flush_subnormals:"))
+M("C15-extra-prec-dropped", "C15", "R15.3", ("utils.py", "        extraprec = int(context.prec * self.extra_prec_multiplier) + self.extra_prec\n", "        extraprec = int(context.prec * self.extra_prec_multiplier)\n"))
+M("C15-eval-outside-context", "C15", "R15.3", ("utils.py", "        with self.backend_context(context):\n            with warnings.catch_warnings(action=\"ignore\"):\n                if isinstance(sample, tuple):\n                    result = super().__call__(*sample)\n                else:\n                    result = super().__call__(sample)", "        with warnings.catch_warnings(action=\"ignore\"):\n            if isinstance(sample, tuple):\n                result = super().__call__(*sample)\n            else:\n                result = super().__call__(sample)"))
+M("C15-zexp-swapped", "C15", "R15.4", ("utils.py", "            vectorize_with_mpmath.float_minexp[fp_format]\n            if flush_subnormals\n            else vectorize_with_mpmath.float_subexp[fp_format]", "            vectorize_with_mpmath.float_subexp[fp_format]\n            if flush_subnormals\n            else vectorize_with_mpmath.float_minexp[fp_format]"))
+M("C15-seed-negzero", "C15", "R15.5", ("utils.py", "            return -dtype(0) if sign else dtype(0)", "            return dtype(-0 if sign else 0)"))
+M("C15-overflow-sign", "C15", "R15.5", ("utils.py", "            return dtype(-numpy.inf) if sign else dtype(numpy.inf)", "            return dtype(numpy.inf)"))
+N("C15-neutral-statement-form", "C15", ("utils.py", "            return -dtype(0) if sign else dtype(0)", "            return dtype(-0.0) if sign else dtype(0.0)"))
+
+# ----------------------------------------------------------------------------- C16 (rules added later)
+M("C16-seed-taylorat", "C16", "R16.4", ("polynomial.py", "            # e == j - m\n            s += P[j] * math.comb(j, m) * z0e", "            # e == j - m\n            if P[j] == 0:\n                continue\n            s += P[j] * math.comb(j, m) * z0e"))
+M("C16-divmod-counter", "C16", "R16.5", ("polynomial.py", "    Q = [0] * n\n    R = P\n    while len(R) >= len(D):\n        # The divisor is aligned with the leading term of the current\n        # remainder: when the remainder has zero coefficients, its\n        # degree drops by more than one per step.\n        k = len(R) - len(D)\n        t = R[-1] / ld\n        Q[k] = t\n        R = add(R, multiply(-t, [0] * k + D, reverse=reverse), reverse=reverse)\n        # the leading term of the remainder cancels\n        R = R[:-1]\n        while R and R[-1] == 0:\n            R.pop()", "    D = [0] * (len(P) - len(D)) + D\n    Q = []\n    R = P\n    for k in range(n):\n        if not R:\n            break\n        t = R[-1] / ld\n        Q.insert(0, t)\n        R = add(R, multiply(-t, D[k:], reverse=reverse), reverse=reverse)\n        while R and R[-1] == 0:\n            R.pop()"))
+
+# ----------------------------------------------------------------------------- C17
+M("C17-ln2lo-digit", "C17", "R17.1", (FPA, "fp64_ = ctx.constant(1.9082149292705877e-10, largest)", "fp64_ = ctx.constant(1.9082149292705877e-11, largest)"))
+M("C17-active-branch", "C17", "R17.1", (FPA, "    elif 1:\n        # p=32, abserr=1.1612227229362532e-26, same expm1 accuracy as p=32\n        fp64 = ctx.constant(0.6931471803691238, largest)", "    elif 1:\n        # p=32, abserr=1.1612227229362532e-26, same expm1 accuracy as p=32\n        fp64 = ctx.constant(0.693147180559945, largest)"))
+M("C17-fp32-hi-too-long", "C17", "R17.1", (FPA, "fp32 = ctx.constant(0.69314575, largest)  # p=16", "fp32 = ctx.constant(0.6931472, largest)  # p=16"))
+M("C17-seed-ln2inv", "C17", "R17.2", (FPA, "ln2inv = ctx.constant(1.4426950408889634074, largest)", "ln2inv = ctx.constant(1.4427950408889634074, largest)"))
+M("C17-k-rounding", "C17", "R17.2", (FPA, "    k = ctx.floor(x * ln2inv + half)", "    k = ctx.floor(x * ln2inv)"))
+M("C17-c-sign", "C17", "R17.2", (FPA, "    r = x - k * ln2hi\n    c = -k * ln2lo\n    return k, r, c", "    r = x - k * ln2hi\n    c = k * ln2lo\n    return k, r, c"))
+M("C17-hi-lo-swapped", "C17", "R17.2", (FPA, "    return ln2, ln2hi, ln2lo, ln2inv, ln2half", "    return ln2, ln2lo, ln2hi, ln2inv, ln2half"))
+N("C17-neutral-commute", "C17", (FPA, "    r = x - k * ln2hi\n    c = -k * ln2lo\n    return k, r, c", "    r = x - ln2hi * k\n    c = -k * ln2lo\n    return k, r, c"))
+
+# ----------------------------------------------------------------------------- C18 / C09 additions
+M("C18-seed-shared-buffer", "C18", "R18.7", ("fpu.py", "        val = ctypes.c_uint32()\n        self._get_mxcsr(ctypes.byref(val))\n        return val", "        val = self._buf\n        self._get_mxcsr(ctypes.byref(val))\n        return val"), ("fpu.py", "        self.__code_buf = _code_buf  # to keep mmap object alive\n", "        self.__code_buf = _code_buf  # to keep mmap object alive\n        self._buf = ctypes.c_uint32()\n"))
+M("C09-seed-lru", "C09", "R9.4", ("expr.py", "def toidentifier(value):", "@functools.lru_cache(maxsize=None)\ndef toidentifier(value):"), ("expr.py", "import math\nimport struct", "import functools\nimport math\nimport struct"))
+
+# ----------------------------------------------------------------------------- C19
+M("C19-guard-removed-num3", "C19", "R19.1", ("utils.py", "    if include_huge and num > 3:", "    if include_huge:"))
+M("C19-seed-axis", "C19", "R19.2", ("utils.py", "        max_imag_value=max_imag_values[1],", "        max_imag_value=max_imag_values[0],"))
+M("C19-flag-dropped", "C19", "R19.2", ("utils.py", "        include_nan=include_nan,\n        include_huge=include_huge,\n        nonnegative=nonnegative,\n        min_value=min_imag_value,", "        include_nan=include_nan,\n        nonnegative=nonnegative,\n        min_value=min_imag_value,"))
+M("C19-size-axis", "C19", "R19.2", ("utils.py", "    s3 = real_samples(\n        size=size[2],", "    s3 = real_samples(\n        size=size[1],"))
+M("C19-flag-constant", "C19", "R19.2", ("utils.py", "    s1 = real_samples(\n        size=size[0],\n        dtype=dtype,\n        include_infinity=include_infinity,\n        include_zero=include_zero,\n        include_subnormal=include_subnormal,\n        include_nan=include_nan,\n        nonnegative=nonnegative,\n        include_huge=include_huge,\n        min_value=min_values[0],\n        max_value=max_values[0],\n    )\n    s2 = real_samples(\n        size=size[1],\n        dtype=dtype,\n        include_infinity=include_infinity,\n        include_zero=include_zero,\n        include_subnormal=include_subnormal,\n        include_nan=include_nan,\n        nonnegative=nonnegative,\n        include_huge=include_huge,\n        min_value=min_values[1],\n        max_value=max_values[1],\n    )\n    s1, s2 = s1.reshape(1, -1)", "    s1 = real_samples(\n        size=size[0],\n        dtype=dtype,\n        include_infinity=include_infinity,\n        include_zero=include_zero,\n        include_subnormal=include_subnormal,\n        include_nan=include_nan,\n        nonnegative=nonnegative,\n        include_huge=include_huge,\n        min_value=min_values[0],\n        max_value=max_values[0],\n    )\n    s2 = real_samples(\n        size=size[1],\n        dtype=dtype,\n        include_infinity=include_infinity,\n        include_zero=True,\n        include_subnormal=include_subnormal,\n        include_nan=include_nan,\n        nonnegative=nonnegative,\n        include_huge=include_huge,\n        min_value=min_values[1],\n        max_value=max_values[1],\n    )\n    s1, s2 = s1.reshape(1, -1)"))
+N("C19-neutral-guard-added", "C19", ("utils.py", "    if include_huge and num > 3:", "    if include_huge and num >= 4:"))
